@@ -58,6 +58,10 @@ class BackupManager:
         """
         if not backup_name:
             backup_name = self.DEFAULT_BACKUP_NAME
+        # A backup is one directory of the backups folder: a name with path separators could resolve to another
+        # backup (and overwrite it) or nest a backup where the consistency check does not expect one.
+        if os.path.basename(backup_name) != backup_name or backup_name in ('.', '..'):
+            raise HedFileError("BadBackupName", f"The backup name {backup_name} is not a plain directory name", "")
         if self.backups_dict and backup_name in self.backups_dict:
             return False
         # The backup may have been created by someone else since this manager read the backups directory.
